@@ -83,6 +83,8 @@ func c18ObsDiff(o Op, a, b Obs) string {
 		return "kind"
 	case a.Err != b.Err:
 		return "error"
+	case a.Active != b.Active:
+		return "active"
 	case a.At != b.At:
 		return "access_token"
 	case a.Rt != b.Rt:
@@ -258,12 +260,15 @@ type c18Difference struct {
 
 func (d c18Difference) signature(ops []Op) string { return ops[d.Op].Kind + ":" + d.Field }
 
-// first difference between two traces of the same operations
-func c18TraceDiff(ops []Op, a, b c18Trace) (int, string, string) {
+// first difference between two traces of the same operations (withStore: the storage digests count)
+func c18TraceDiff(ops []Op, a, b c18Trace, withStore bool) (int, string, string) {
 	for i := range a.Obs {
 		if f := c18ObsDiff(ops[i], a.Obs[i], b.Obs[i]); f != "" {
 			return i, f, fmt.Sprintf("%s answered %s [%d %s]; %s answered %s [%d %s]", a.Exec, a.Obs[i].coq(), a.Obs[i].Status, truncate(a.Obs[i].Raw, 160),
 				b.Exec, b.Obs[i].coq(), b.Obs[i].Status, truncate(b.Obs[i].Raw, 160))
+		}
+		if !withStore {
+			continue
 		}
 		if d := c18DigestDiff(a.Digests[i], b.Digests[i]); d != "" {
 			return i, "store", fmt.Sprintf("same answer (%s) but the storage contents differ afterwards between %s and %s: %s", a.Obs[i].coq(), a.Exec, b.Exec, d)
@@ -272,21 +277,26 @@ func c18TraceDiff(ops []Op, a, b c18Trace) (int, string, string) {
 	return -1, "", ""
 }
 
-// all four executions; the earliest pairwise difference (ties: the pair listed first)
-func c18RunAll(spec WorldSpec, ops []Op, extra []string) ([]c18Trace, *c18Difference) {
-	trs := make([]c18Trace, len(c18Execs))
-	for k, ex := range c18Execs {
-		trs[k] = c18Run(spec, ex, ops, extra)
-	}
+// the earliest pairwise difference among the executions (ties: the pair listed first)
+func c18Compare(ops []Op, trs []c18Trace, withStore bool) *c18Difference {
 	var best *c18Difference
 	for a := 0; a < len(trs); a++ {
 		for b := a + 1; b < len(trs); b++ {
-			if i, f, d := c18TraceDiff(ops, trs[a], trs[b]); i >= 0 && (best == nil || i < best.Op) {
+			if i, f, d := c18TraceDiff(ops, trs[a], trs[b], withStore); i >= 0 && (best == nil || i < best.Op) {
 				best = &c18Difference{A: a, B: b, Op: i, Field: f, Detail: d}
 			}
 		}
 	}
-	return trs, best
+	return best
+}
+
+// all four executions
+func c18RunAll(spec WorldSpec, ops []Op, extra []string, withStore bool) ([]c18Trace, *c18Difference) {
+	trs := make([]c18Trace, len(c18Execs))
+	for k, ex := range c18Execs {
+		trs[k] = c18Run(spec, ex, ops, extra)
+	}
+	return trs, c18Compare(ops, trs, withStore)
 }
 
 // ---- shrinking: handles are named by operation index, so dropping operation j renames the rest ----
@@ -326,16 +336,16 @@ func c18Drop(ops []Op, j int) []Op {
 	return out
 }
 
-func c18Shrink(spec WorldSpec, ops []Op, extra []string, d *c18Difference) ([]Op, []c18Trace, *c18Difference) {
+func c18Shrink(spec WorldSpec, ops []Op, extra []string, d *c18Difference, withStore bool) ([]Op, []c18Trace, *c18Difference) {
 	sig := d.signature(ops)
 	ops = append([]Op(nil), ops[:d.Op+1]...)
-	trs, cur := c18RunAll(spec, ops, extra)
+	trs, cur := c18RunAll(spec, ops, extra, withStore)
 	if cur == nil || cur.signature(ops) != sig {
 		return nil, nil, nil
 	}
 	for j := len(ops) - 2; j >= 0; j-- {
 		cand := c18Drop(ops, j)
-		t2, d2 := c18RunAll(spec, cand, extra)
+		t2, d2 := c18RunAll(spec, cand, extra, withStore)
 		if d2 != nil && d2.signature(cand) == sig {
 			cand = cand[:d2.Op+1]
 			ops, trs, cur = cand, t2, d2
@@ -366,7 +376,7 @@ type c18Result struct {
 }
 
 func c18Finding(h c18History, trs []c18Trace, d *c18Difference) Finding {
-	ops, t2, d2 := c18Shrink(h.Spec, h.Ops, h.Extra, d)
+	ops, t2, d2 := c18Shrink(h.Spec, h.Ops, h.Extra, d, d.Field == "store")
 	if d2 == nil { // not reproducible in isolation: report the original
 		ops, t2, d2 = h.Ops, trs, d
 	}
@@ -496,23 +506,30 @@ func c18Corpus(r *rand.Rand) []c18History {
 				{Kind: "Authorize", Client: 1, Params: Params{RequestURI: mint(0, KParUri), State: "SECOND", Scopes: p.Scopes, RespType: p.RespType}, PolicyAvail: true, Pol: pol},
 				{Kind: "Token", Grant: "authorization_code", Cred: ok, Code: mint(2, KCode), Redirect: p.Redirect, HG: "HgOk", BA: "BaApprove"}}})
 			// D8: a refused refresh must leave the grant as it was
-			rt0 := mint(4, KRefresh)
-			out = append(out, c18History{Note: "corpus:refresh-refused" + tag, Spec: spec, Ops: []Op{
+			rt0, at0 := mint(4, KRefresh), mint(4, KAtOpaque)
+			refresh := func(scope, hg string) Op {
+				return Op{Kind: "Token", Grant: "refresh_token", Cred: ok, Refresh: rt0, Scope: scope, HG: hg, BA: "BaApprove"}
+			}
+			introAt := Op{Kind: "Introspect", Cred: ok, Tok: PTok{Kind: "PExact", H: at0}, Allowed: true}
+			rops := []Op{
 				{Kind: "Par", Cred: ok, Params: p},
 				{Kind: "Authorize", Client: 1, Params: Params{RequestURI: mint(0, KParUri), State: "outer", Scopes: p.Scopes, RespType: p.RespType}, PolicyAvail: true, Pol: Pol{Kind: "PolInProgress"}},
 				{Kind: "Callback", Cb: mint(1, KCallback), Pol: Pol{Kind: "PolInProgress"}},
 				{Kind: "Callback", Cb: mint(1, KCallback), Pol: pol},
 				{Kind: "Token", Grant: "authorization_code", Cred: ok, Code: mint(3, KCode), Redirect: p.Redirect, HG: "HgOk", BA: "BaApprove"},
-				{Kind: "Token", Grant: "refresh_token", Cred: ok, Refresh: rt0, Scope: "openid", HG: "HgDeny", BA: "BaApprove"},
-				{Kind: "Introspect", Cred: ok, Tok: PTok{Kind: "PExact", H: mint(4, KAtOpaque)}, Allowed: true},
-				{Kind: "Token", Grant: "refresh_token", Cred: ok, Refresh: rt0, Scope: "openid email admin", HG: "HgOk", BA: "BaApprove"},
-				{Kind: "Token", Grant: "refresh_token", Cred: ok, Refresh: rt0, Scope: "openid", HG: "HgFail", BA: "BaApprove"},
+				refresh("openid", "HgDeny"), introAt, // refused by the embedder
+				refresh("openid email admin", "HgOk"), introAt, // refused: more than was granted
+				{Kind: "Token", Grant: "refresh_token", Cred: Cred{ID: 2, OK: true}, Refresh: rt0, Scope: "openid", HG: "HgOk", BA: "BaApprove"}, introAt, // refused: another client
+				refresh("openid", "HgFail"), introAt, // the embedder fails
 				{Kind: "Introspect", Cred: ok, Tok: PTok{Kind: "PExact", H: rt0}, Allowed: true},
-				{Kind: "UserInfo", Tok: PTok{Kind: "PExact", H: mint(4, KAtOpaque)}, HasHeader: true},
-				{Kind: "Token", Grant: "refresh_token", Cred: ok, Refresh: rt0, Scope: "openid", HG: "HgOk", BA: "BaApprove"},
-				{Kind: "Introspect", Cred: ok, Tok: PTok{Kind: "PExact", H: mint(11, KAtOpaque)}, Allowed: true},
-				{Kind: "Revoke", Cred: ok, Tok: PTok{Kind: "PExact", H: mint(11, KAtOpaque)}, Allowed: true},
-				{Kind: "Token", Grant: "refresh_token", Cred: ok, Refresh: rt0, HG: "HgOk", BA: "BaApprove"}}})
+				{Kind: "UserInfo", Tok: PTok{Kind: "PExact", H: at0}, HasHeader: true},
+				{Kind: "TokenInfo", Tok: PTok{Kind: "PExact", H: at0}}}
+			k := len(rops)
+			rops = append(rops, refresh("openid", "HgOk"), // accepted, narrowed
+				Op{Kind: "Introspect", Cred: ok, Tok: PTok{Kind: "PExact", H: mint(k, KAtOpaque)}, Allowed: true},
+				Op{Kind: "Revoke", Cred: ok, Tok: PTok{Kind: "PExact", H: mint(k, KAtOpaque)}, Allowed: true},
+				refresh("", "HgOk"))
+			out = append(out, c18History{Note: "corpus:refresh-refused" + tag, Spec: spec, Ops: rops})
 			if dynamic {
 				// the registration disappears while the user is at the login page
 				out = append(out, c18History{Note: "corpus:client-removed-during-interaction" + tag, Spec: spec, Ops: []Op{
@@ -692,7 +709,7 @@ func init() {
 		}
 		var hs []c18History
 		hs = append(hs, c18Corpus(ctx.R)...)
-		n := ctx.N(128, 3000)
+		n := ctx.N(128, 2000)
 		for k := 0; k < n; k++ {
 			hs = append(hs, c18Generate(ctx.R, k))
 		}
@@ -706,7 +723,7 @@ func init() {
 			go func(i int) {
 				defer wg.Done()
 				defer func() { <-sem }()
-				trs, d := c18RunAll(hs[i].Spec, hs[i].Ops, hs[i].Extra)
+				trs, d := c18RunAll(hs[i].Spec, hs[i].Ops, hs[i].Extra, true)
 				res[i] = c18Result{H: hs[i], Traces: trs, Diff: d}
 			}(i)
 		}
@@ -728,9 +745,17 @@ func init() {
 			ctx.Meta.Dist["history:"+strings.SplitN(strings.SplitN(r.H.Note, "#", 2)[0], "/", 2)[0]]++
 			if r.Diff != nil {
 				ctx.Meta.Dist["histories-with-a-difference"]++
-				if sig := r.Diff.signature(r.H.Ops); !sigSeen[sig] { // one (shrunk) replay per signature
-					sigSeen[sig] = true
-					ctx.Meta.Findings = append(ctx.Meta.Findings, c18Finding(r.H, r.Traces, r.Diff))
+				ds := []*c18Difference{r.Diff}
+				if r.Diff.Field == "store" { // what a client can see of it later in the same history, if anything
+					if d2 := c18Compare(r.H.Ops, r.Traces, false); d2 != nil {
+						ds = append(ds, d2)
+					}
+				}
+				for _, d := range ds {
+					if sig := d.signature(r.H.Ops); !sigSeen[sig] { // one (shrunk) replay per signature
+						sigSeen[sig] = true
+						ctx.Meta.Findings = append(ctx.Meta.Findings, c18Finding(r.H, r.Traces, d))
+					}
 				}
 			}
 			compared += 6
@@ -788,7 +813,7 @@ func init() {
 		jb, _ := json.Marshal(jcases)
 		_ = os.WriteFile(filepath.Join(ctx.Out, "cases.json"), jb, 0o644)
 
-		dh, dops := c18Dcr(ctx, ctx.N(10, 200))
+		dh, dops := c18Dcr(ctx, ctx.N(10, 60))
 		ctx.Meta.Ops += 4 * dops
 		ctx.Meta.Dist["history:dcr"] = dh
 
@@ -833,7 +858,7 @@ func init() {
 		if len(ops) == 0 {
 			spec, ops = fd.Spec, fd.Ops
 		}
-		trs, d := c18RunAll(spec, ops, extra)
+		trs, d := c18RunAll(spec, ops, extra, true)
 		for i, o := range ops {
 			if c18IsPseudo(o) {
 				fmt.Printf("%3d %s client %d\n", i, o.Kind, o.Client)
